@@ -784,11 +784,15 @@ def process_fn_block(head, lines, meta, stub=False):
             elif kw == 'loop':
                 cur = loops.setdefault(int(arg), [])
             elif kw in ('after', 'before'):
-                m = re.match(r'"((?:[^"\\]|\\.)*)"\s*(#(\d+))?$', arg)
-                if not m:
-                    raise ExtractError('bad anchor: ' + arg)
+                # one or more alternative anchors: "text" [#k] | "other text" [#k]  (first one found wins)
+                alts = []
+                for part in re.split(r'\s+\|\s+(?=")', arg):
+                    m = re.match(r'"((?:[^"\\]|\\.)*)"\s*(#(\d+))?$', part.strip())
+                    if not m:
+                        raise ExtractError('bad anchor: ' + arg)
+                    alts.append((m.group(1).encode().decode('unicode_escape'), int(m.group(3) or 1)))
                 cur = []
-                inserts.append((kw, m.group(1).encode().decode('unicode_escape'), int(m.group(3) or 1), cur))
+                inserts.append((kw, alts, 0, cur))
             elif kw == 'atend':
                 cur = []
                 inserts.append(('atend', None, 1, cur))
@@ -879,10 +883,14 @@ def process_fn_block(head, lines, meta, stub=False):
                 first = min(i for i, l in enumerate(blines) if l.strip().startswith('{'))
                 blines[first + 1:first + 1] = ['/*@inj*/' + l for l in ins]
                 continue
-            hits = [i for i, l in enumerate(blines) if not l.startswith('/*@inj*/') and (l.strip() == anchor or l.strip().startswith(anchor))]
-            if len(hits) < k:
-                raise ExtractError('lost anchor in %s: line %r (#%d) not found' % (name, anchor, k))
-            at = hits[k - 1] + (1 if mode == 'after' else 0)
+            at = None
+            for anc, kk in anchor:
+                hits = [i for i, l in enumerate(blines) if not l.startswith('/*@inj*/') and (l.strip() == anc or l.strip().startswith(anc))]
+                if len(hits) >= kk:
+                    at = hits[kk - 1] + (1 if mode == 'after' else 0)
+                    break
+            if at is None:
+                raise ExtractError('lost anchor in %s: line %r not found' % (name, anchor))
             blines[at:at] = ['/*@inj*/' + l for l in ins]
         body = '\n'.join(blines)
 
